@@ -74,3 +74,14 @@ fn entry_gs1_vars(args: &[&str]) -> String {
     };
     run_q(script, || one::query_vars(&addr(port), timeout(r)), |m| format!("V{}", show_map(m)))
 }
+
+crate::impl_view_dump!(
+    gamedig::protocols::gamespy::one::Response,
+    "protocols/gamespy/protocols/one/types.rs",
+    "Response",
+    "protocols/gamespy/protocols/one/types.rs",
+    "Player"
+);
+
+// the raw variables are not a response
+impl crate::views::ViewDump for HashMap<String, String> {}
